@@ -2767,18 +2767,6 @@ async fn run_multi(g: &Global, cfg: &MultiCfg, ch: Arc<Mutex<Chooser>>) {
                         }
                     }
                 }
-                // a stream attempt that follows a truncated answer has the full response timeout
-                if let (Some(t), Some(Res::Err(e)), false) = (tc_time[i], core.reqs[i].result.clone(), early_checked[i]) {
-                    early_checked[i] = true;
-                    if e == "StreamReadTimeout" && now < t + rt {
-                        core.violate(
-                            "C15|dgram_stream|truncated-answer|stream-attempt-timed-out-before-its-own-budget".into(),
-                            format!("request {i}: truncated datagram answer at +{:?}, Err(StreamReadTimeout) {:?} later although the stream response timeout is {rt:?}", t.duration_since(core.reqs[i].start.unwrap_or(t)), now.duration_since(t)),
-                        );
-                    } else {
-                        core.count("tc.stream-phase-error-not-early");
-                    }
-                }
             }
         }
         let conns: Vec<Arc<Mutex<StreamState>>> = tsh.lock().unwrap().conns.clone();
@@ -2824,6 +2812,30 @@ async fn run_multi(g: &Global, cfg: &MultiCfg, ch: Arc<Mutex<Chooser>>) {
             }
         }
         let live = |ci: usize| -> bool { !fatal[ci] && !conns[ci].lock().unwrap().dropped };
+        // A stream attempt that follows a truncated answer has the full response timeout: while the
+        // request is on a live stream connection on which the peer may still answer, the transport
+        // must not give up with a read timeout before `rt` has passed since the truncated answer.
+        // (Giving up early while NO connection carries the request - e.g. a retry back-off that
+        // cannot end before the deadline - loses nothing and is left to the implementation.)
+        if cfg.fine {
+            let now = Instant::now();
+            for i in 0..core.reqs.len() {
+                if let (Some(t), Some(Res::Err(e)), false) = (tc_time[i], core.reqs[i].result.clone(), early_checked[i]) {
+                    early_checked[i] = true;
+                    let on_live_stream = entries.iter().any(|en| en.req == i && en.open && live(en.conn));
+                    if e == "StreamReadTimeout" && now < t + rt && on_live_stream {
+                        core.violate(
+                            "C15|dgram_stream|truncated-answer|stream-attempt-timed-out-before-its-own-budget".into(),
+                            format!("request {i}: truncated datagram answer at +{:?}, Err(StreamReadTimeout) {:?} later although the stream response timeout is {rt:?} and the request is on a live stream", t.duration_since(core.reqs[i].start.unwrap_or(t)), now.duration_since(t)),
+                        );
+                    } else if e == "StreamReadTimeout" && now < t + rt {
+                        core.count("tc.stream-phase-gave-up-early-without-a-live-connection");
+                    } else {
+                        core.count("tc.stream-phase-error-not-early");
+                    }
+                }
+            }
+        }
         let waiting = if cfg.dgram_first { dg_waiting(&dsh) } else { Vec::new() };
         let open: Vec<usize> = (0..entries.len()).filter(|i| entries[*i].open && live(entries[*i].conn)).collect();
         let ex = format!(
